@@ -172,6 +172,7 @@ func iterateContainerBuckets(l *zap.Logger, cs Containers, tx *bbolt.Tx, fromBkt
 			return nil, nil, fmt.Errorf("check container presence: %w", err)
 		} else if !exists {
 			l.Info("container no longer exists, ignoring", zap.Stringer("container", cnr))
+			afterObj = nil // the cursor key belongs to the bucket being skipped, not to the next one
 			continue
 		}
 		b := tx.Bucket(name) // must not be nil, bbolt/Tx.ForEach follows the same assumption
